@@ -279,7 +279,11 @@ func damagedStream(r *rand.Rand) []byte {
 		fields = append(fields, [2]string{pick(r, []string{"X-Folded", "WARC-Filename", "Content-Type"}),
 			pick(r, []string{"text/plain; \r\n charset=utf-8", "a\t\r\n\tb \r\n c", "one\r\n two", "x  \r\n  y"})})
 	}
-	rec := serializeRecord("1.1", fields, g.body, pick(r, []string{"\r\n", "\r\n", "\r\n", "\n"}))
+	version := "1.1"
+	if r.Intn(12) == 0 { // versions the library does not know, in every shape
+		version = pick(r, []string{"1", "1.", ".1", "2.0", "1.1.1", "", "x", "1.x", "0.18", "10", "1 .1", "-1.1"})
+	}
+	rec := serializeRecord(version, fields, g.body, pick(r, []string{"\r\n", "\r\n", "\r\n", "\n"}))
 	if r.Intn(4) == 0 {
 		// exactly one line of the header section (version line, a field line, or the empty line that
 		// ends the section) has a bare LF; every other line ends in CRLF
